@@ -191,4 +191,38 @@ Proof.
   - intros Dd. rewrite !FQ by auto. apply B; auto.
 Qed.
 
+
+(* retention, in full: every crash state answers EVERY query as the run map in which some of the runs that are up for removal are
+   already gone (and nothing else has changed) *)
+Theorem crash_removeold_full0 es d cutoff fs' : premises loc dirhash D days K (es ++ [EOp (ORemoveOld d cutoff)]) ->
+  In fs' (crash_states loc dirhash (y_h (yrun loc dirhash sys_init es)) (ORemoveOld d cutoff)) ->
+  exists H', answers0 fs' H' /\ hist_okb H' = true
+    /\ (forall a, In a (h_runs H') -> In a (h_runs (sp_state es)))
+    /\ (forall a, In a (h_runs (sp_state es)) -> ~ (a_dag a = d /\ (a_mtime a < cutoff)%Z) -> In a (h_runs H'))
+    /\ NoDup (map a_id (h_runs H')).
+Proof.
+  intros P IN. destruct (crash_state_l1 es _ fs' P IN) as [s' [IN' [E [TR FQ]]]].
+  destruct (premises_snoc es _ P) as [Pes [Oin [Ook Ohk]]].
+  pose proof (reach_inv loc dirhash D days K OK KC es Pes) as I.
+  set (ys := fold_left (ysstep loc dirhash) es ysys_init) in *.
+  destruct I as [_ _ _ _ [L R] Iok _ _ _].
+  destruct (crash_removeold_full rname (rpath loc dirhash) (ys_h ys) (sp_state es) L d cutoff s' R Iok IN') as [H' [A [B C]]].
+  exists H'. split; auto.
+Qed.
+
+(* rename, in full: every crash state answers EVERY query as the run map in which some of the runs of d already belong to d' *)
+Theorem crash_rename_full0 es d d' fs' : premises loc dirhash D days K (es ++ [EOp (ORename d d')]) ->
+  In fs' (crash_states loc dirhash (y_h (yrun loc dirhash sys_init es)) (ORename d d')) ->
+  exists H', answers0 fs' H' /\ hist_okb H' = true
+    /\ exists l, Permutation l (h_runs (sp_state es)) /\ Forall2 (rrel d d') l (h_runs H').
+Proof.
+  intros P IN. destruct (crash_state_l1 es _ fs' P IN) as [s' [IN' [E [TR FQ]]]].
+  destruct (premises_snoc es _ P) as [Pes [Oin [Ook Ohk]]].
+  pose proof (reach_inv loc dirhash D days K OK KC es Pes) as I.
+  set (ys := fold_left (ysstep loc dirhash) es ysys_init) in *.
+  destruct I as [_ _ _ _ [L R] Iok Iseen _ _].
+  destruct (crash_rename_full rname (rpath loc dirhash) (ys_h ys) (sp_state es) L (ys_seen ys) d d' s' R Iok Iseen Ook Ohk IN') as [H' [A [B C]]].
+  exists H'. split; auto.
+Qed.
+
 End C.
